@@ -269,4 +269,4 @@ static bool replay(const std::string &text) {
     if (w[0] == "dec" && w.size() >= 4) { auto s = w[2] == "-" ? std::vector<uint8_t>() : vp::unhex(w[2]); return check_string(k, s.data(), s.size(), strtoull(w[3].c_str(), 0, 10)); }
     return false;
 }
-int main(int argc, char **argv) { return vp::main_(argc, argv, {run, replay}); }
+VP_MAIN(run, replay)
